@@ -3,7 +3,7 @@ CONSTANTS
   FmlaErrorRead = TRUE
   RowSet = {5}
   ColSet = {0, 1, 2}
-  Vals = {1,2,3,4,5,6,7,8,9,10,11,12,13,14,15,16,17,18,19,20,21,22,23,24,25,26,27,28,29,30,31,32,33,34}
+  Vals = {1,2,3,4,5,6,7,8,9,10,11,12,13,14,15,16,17,18,19,20,21,22,23,24,25,26,27,28,29,30,31,32,33,34,35,36}
   Ign = "none"
   MaxRows = 1
   MaxCells = 3
